@@ -131,8 +131,8 @@ def float_elem(dt, specials=True, mag=256):
     return st.one_of(small, dy, sp)
 
 
-WIDE32 = [0.1, 3e38, -3e38, 1e-38, 1 / 3, 16777217.0, 1e10]
-WIDE64 = [0.1, 1e300, -1e300, 1e-300, 1 / 3, 9007199254740993.0, 1e10]
+WIDE32 = [0.1, 3e38, -3e38, 1e-38, 1 / 3, 16777217.0, 1e10, 1e19]
+WIDE64 = [0.1, 1e300, -1e300, 1e-300, 1 / 3, 9007199254740993.0, 1e10, 1e19, 1.2e19]
 
 
 @_cache
